@@ -198,8 +198,72 @@ Definition read_srp (b : list N) : option (nlri * list N) :=
   | [] => None
   end.
 
+(* ---- MUP.  draft-ietf-bess-mup-safi 3.1: <architecture type (1 = 3GPP-5G), route type (2 octets),
+   length (1 octet), route>; 3.1.1-3.1.4: RD (8), prefix length + prefix, address of the
+   family's width [w], TEID (4), QFI (1), endpoint / source address lengths in bits, and for the
+   Type 2 ST route an endpoint length of 8w .. 8w + 32 bits covering the address and the leading
+   octets of the TEID. *)
+Definition read_mup (v6 : bool) (b : list N) : option (nlri * list N) :=
+  let w := if v6 then 16 else 4 in
+  match b with
+  | 1 :: t1 :: t0 :: n :: r =>
+      match take n r with
+      | Some (d, rest) =>
+          match
+            (let ty := t1 * 256 + t0 in
+             if ty =? 1 then
+               match takes [8; 1] d with
+               | Some ([rd; [pl]], pr) =>
+                   if (pl <=? 8 * w) && (blen pr =? (pl + 7) / 8) then Some (Mup1 rd pl pr) else None
+               | _ => None
+               end
+             else if ty =? 2 then
+               match takes [8; w] d with Some ([rd; a], []) => Some (Mup2 rd a) | _ => None end
+             else if ty =? 3 then
+               match takes [8; 1] d with
+               | Some ([rd; [pl]], r1) =>
+                   if pl <=? 8 * w then
+                     match takes [(pl + 7) / 8; 4; 1; 1] r1 with
+                     | Some ([pr; te; [q]; [el]], r2) =>
+                         if el =? 8 * w then
+                           match takes [w; 1] r2 with
+                           | Some ([ep; [sl]], r3) =>
+                               if sl =? 0 then
+                                 match r3 with [] => Some (Mup3 rd pl pr (rdn te 0) q ep None) | _ => None end
+                               else if (sl =? 8 * w) && (blen r3 =? w) then Some (Mup3 rd pl pr (rdn te 0) q ep (Some r3))
+                               else None
+                           | _ => None
+                           end
+                         else None
+                     | _ => None
+                     end
+                   else None
+               | _ => None
+               end
+             else if ty =? 4 then
+               match takes [8; 1] d with
+               | Some ([rd; [el]], r1) =>
+                   if (8 * w <=? el) && (el <=? 8 * w + 32) then
+                     match takes [w] r1 with
+                     | Some ([ep], tb) =>
+                         if blen tb =? (el - 8 * w + 7) / 8
+                         then Some (Mup4 rd el ep (rdn (tb ++ zeros (4 - length tb)) 0)) else None
+                     | _ => None
+                     end
+                   else None
+               | _ => None
+               end
+             else None) with
+          | Some m => Some (NMup m, rest)
+          | None => None
+          end
+      | None => None
+      end
+  | _ => None
+  end.
+
 (* ---- a list of such NLRI, each preceded by its path identifier when ADD-PATH is in use *)
-Inductive skind := SFlow (v6 vpn : bool) | SRtc | SEvpn | SSrp.
+Inductive skind := SFlow (v6 vpn : bool) | SRtc | SEvpn | SSrp | SMup (v6 : bool).
 
 Definition read_struct (k : skind) : list N -> option (nlri * list N) :=
   match k with
@@ -207,6 +271,7 @@ Definition read_struct (k : skind) : list N -> option (nlri * list N) :=
   | SRtc => read_rtc
   | SEvpn => read_evpn
   | SSrp => read_srp
+  | SMup v6 => read_mup v6
   end.
 
 Fixpoint read_items (k : skind) (fuel : nat) (addpath : bool) (b : list N) : option (list (N * nlri)) :=
